@@ -19,7 +19,8 @@ vars == <<l, w>>
 
 EmptyG == [steps |-> <<>>, pools |-> <<>>, defaults |-> <<>>]
 NoPend == [s |-> 0, deps |-> <<>>]
-NoInv  == [targets |-> <<>>, j |-> 1, k |-> 0, adopt |-> FALSE, file |-> "build.ninja", explain |-> FALSE]
+NoInv  == [targets |-> <<>>, j |-> 1, k |-> 0, adopt |-> FALSE, file |-> "build.ninja", explain |-> FALSE,
+           cdir |-> ""]
 \* What `-d explain` last said and has not yet been matched with a check result.
 NoXpl  == [kind |-> "", loc |-> "", file |-> "", sig |-> <<>>]
 
@@ -131,7 +132,7 @@ DoFs(ev) == [w EXCEPT !.file = (ev.path :> ev.mt) @@ @, !.changed = TRUE]
 
 DoInvoke(ev) ==
   LET inv == [targets |-> ev.targets, j |-> ev.j, k |-> ev.k, adopt |-> ev.adopt, file |-> ev.file,
-              explain |-> ev.explain]
+              explain |-> ev.explain, cdir |-> ev.cdir]
       rep == w.prevOK /\ ~w.changed /\ ev.targets = w.prevTargets /\ ev.file = w.prevFile
   IN [w EXCEPT !.inv = inv, !.workNo = 0, !.bad = FALSE, !.g = EmptyG,
                !.cur = <<>>, !.st = <<>>,
@@ -449,8 +450,10 @@ DoEnd(ev) ==
       vlog == Lbl({"C18"}, "log-location",
                   (loaded /\ "dbat" \in DOMAIN ev) =>
                      Range(ev.dbat) = {IF bdir = "" THEN ".n2_db" ELSE bdir \o "/.n2_db"})
+      \* -C: n2 works in the named directory (and everything else is as if started there)
+      vcwd == Lbl({"C18"}, "chdir", (loaded /\ "cwd" \in DOMAIN ev) => ev.cwd = w.inv.cdir)
       vdead == Lbl({"C06"}, "hang", ev.dead \notin {"hang", "livelock"})
-  IN [w EXCEPT !.viol = IF dead THEN @ \cup vdead ELSE @ \cup v \cup vexit \cup vlog,
+  IN [w EXCEPT !.viol = IF dead THEN @ \cup vdead ELSE @ \cup v \cup vexit \cup vlog \cup vcwd,
                !.cov = IF dead THEN @ ELSE cov,
                !.inInv = FALSE, !.lastOk = (~dead /\ ok),
                !.lastSum = <<ev.summary, IF ev.summary = "ran" THEN ev.n ELSE 0>>,
